@@ -56,6 +56,13 @@ func concScenarios() []concScenario {
 		{Name: "update-update-two-subscribers", Accounts: one, Pre: []Op{crA1, crB, upd0, usageOp("update", 1, 1, 70, 0, 501)}, Conc: []Op{usageOp("update", 0, 1, 100, 100, 600), usageOp("update", 1, 1, 30, 70, 601)}},
 		{Name: "partial-record-two-subscribers", Accounts: one, Pre: []Op{crA1, crB}, Conc: []Op{usageOp("update", 0, 1, 100, 0, 600, "VOLIMM"), usageOp("update", 1, 1, 30, 0, 601, "VOLIMM")}},
 		{Name: "create-create-create", Accounts: one, Conc: []Op{crA1, crA2, crB}},
+		// a one-time event of a subscriber next to an update of one of its sessions
+		{Name: "event-update", Accounts: one, Pre: []Op{crA1, upd0}, Conc: []Op{func() Op {
+			c := mkCreate(0, "smf-ev")
+			c.OTE = "IEC"
+			c.MUs = []MU{{RG: 1, Req: -1, Conts: []Cont{{Vol: 5, Up: 2, Down: 3, Seq: 700, Offline: true}}}}
+			return c
+		}(), usageOp("update", 0, 1, 100, 60, 600)}},
 		// a create that is rejected after the record counter has moved (pDUSessionChargingInformation without pduSessionInformation)
 		// next to a successful create of another subscriber, then one more create of that subscriber and consumer
 		{Name: "rejected-create-create", Accounts: one, Conc: []Op{func() Op { c := mkCreate(0, "smf1"); c.NoPSI = true; return c }(), crB},
